@@ -423,6 +423,20 @@ def _world_poly_sign(self, p):
     chains = {}
     pos = set(self.pos_atoms)
     nonneg = set(self.nonneg_atoms)
+    # position symbols (generic cell index t with a constant lower bound): t = lo + s with s >= 0, so that e.g. 3t^2 - 3t + 1
+    # becomes a polynomial with positive coefficients in s
+    from .alg import Poly as _Poly, atom_id as _aid
+    shift = {}
+    for a in p.atoms():
+        key = atom_key(a)
+        if isinstance(key, tuple) and key and key[0] == 't' and a in self.ctx.bounds:
+            lo_b = self.ctx.bounds[a][0]
+            if lo_b.is_const():
+                s_id = _aid(('tshift',) + tuple(key[1:]))
+                shift[a] = _Poly({((s_id, 1),): 1}) + lo_b.const_value()
+                nonneg.add(s_id)
+    if shift:
+        p = p.subs(shift)
     for a in p.atoms():
         key = atom_key(a)
         if isinstance(key, tuple) and key:
